@@ -37,7 +37,7 @@ THEOREMS = [NS + t for t in (
     'C15_selects_exactly', 'C15_selects_mem', 'C15_size_mismatch',
     'C15_countif_spec', 'C15_countifs_spec', 'C15_aggregate_spec',
     'C15_ifs1_eq_if', 'C15_commute', 'C15_partition_cell', 'C15_partition',
-    'C15_avg', 'C15_total')]
+    'C15_avg', 'C15_total', 'C15_duplicate_pair', 'C15_duplicate_pair_functions')]
 DESIGN_REF = 'DESIGN.md §7 C15'
 RULE = ('deterministic core: every criterion of the grammar (numbers, numeric text, "op number", text, "op text", '
         'wildcards with and without = / <>, ~ escapes, regex metacharacters, empty, "=", "<>") against every cell of a '
@@ -1078,6 +1078,11 @@ def cases(tier, rng_):
             yield {'k': 'partition', 'args': [nearcol, S(repr(v))], 'near': 1, **via}
         yield {'k': 'commute', 'fn': 'countifs', 'args': [nearcol, S('>=' + repr(v)), nearcol, S('<=' + repr(v))],
                'perm': [1, 0], 'via': 'l', 'near': 1}
+        yield {'k': 'commute', 'fn': 'countifs', 'args': [nearcol, S('>=' + repr(v)), nearcol, S('<=' + repr(v))],
+               'perm': [1, 0, 1], 'via': 'l', 'near': 1}
+        for fn in ('sumifs', 'averageifs', 'maxifs', 'minifs'):
+            yield {'k': 'commute', 'fn': fn, 'args': [dycol, nearcol, S('>=' + repr(v))], 'perm': [0, 0],
+                   'via': 'f', 'lit': False, 'near': 1}
     # ---- deterministic core 2: every criterion over the whole pool as a column, all eight functions
     n = len(POOL)
     col = rng(n, 1, POOL)
@@ -1137,6 +1142,8 @@ def cases(tier, rng_):
             npairs = (len(base['args']) - (0 if base['fn'] == 'countifs' else 1)) // 2
             perm = list(range(npairs))
             rng_.shuffle(perm)
+            if rng_.random() < 0.4:     # a pair stated twice (C15_duplicate_pair): same selection
+                perm.insert(rng_.randrange(len(perm) + 1), rng_.choice(perm))
             yield {'k': 'commute', 'fn': base['fn'], 'args': base['args'], 'perm': perm, 'via': base['via'],
                    'lit': base.get('lit', False)}
         elif u < 0.83:
